@@ -1449,7 +1449,13 @@ fn verify_upgrade(
     }
     let extra = &upgrade.additional_nodes;
 
-    iter.seek(changeset.roots[changeset.roots.len() - 1].index);
+    // An upgrade to length zero leaves a changeset without roots
+    let Some(last_root) = changeset.roots.last() else {
+        return Err(HypercoreError::InvalidOperation {
+            context: "Upgrade does not contain any roots".to_string(),
+        });
+    };
+    iter.seek(last_root.index);
     i = 0;
 
     while i < extra.len() && extra[i].index == iter.sibling() {
